@@ -95,7 +95,14 @@ func runC03UDP(t *testing.T, e *worlds.Env, tier string) (bool, any) {
 		for j := 0; j < nd; j++ {
 			sz := 12 + tp.Choose(64, "dsz")
 			if tp.Prob(1, 5, "dsz-big") {
-				sz = 200 + tp.Choose(1200, "dsz2")
+				v := tp.Choose(1200, "dsz2")
+				sz = 200 + v
+				if v%4 == 0 {
+					// beyond 4 KiB, up to 8 KiB. (Larger ones are relayed in two pieces - the client->upstream
+					// pump is io.Copy(io.Discard, tee), which reads 8192 bytes at a time; every byte arrives, in
+					// order, which is all the statement asks: observed, not judged.)
+					sz = 4097 + (v*4)%4000
+				}
 			}
 			d := make([]byte, sz)
 			for x := range d {
